@@ -101,7 +101,16 @@ def build_obj(spec, repo_root):
         env.update({"__f_" + k: v for k, v in fields.items()})
         obj = eval(cd.construct.format(**{k: "__f_" + k for k in fields}), env)
     else:
-        obj = cls.__new__(cls)
+        obj = None
+        if rel.startswith(("schemes/", "toolkit/")):
+            # run the real constructor with its defaults first, so that attributes the sidecar does not declare (private state
+            # added by a later change of the repository) exist; the declared fields are then set to the generated values
+            try:
+                obj = cls()
+            except Exception:
+                obj = None
+        if obj is None:
+            obj = cls.__new__(cls)
     for k, v in fields.items():
         try:
             object.__setattr__(obj, k, v)
